@@ -155,8 +155,9 @@ class C05(PropBase):
             ys, xs = {GG.V(v) for v in Y} & present, {GG.V(v) for v in X} & present
             if ys and xs:
                 identify_target_outcomes(partial, target_outcomes=ys, target_interventions=xs, surrogate_outcomes={}, surrogate_interventions={})
-        gr = GG.to_y0(g, warm=warm)
+        gr = GG.to_y0(g, warm=warm, loose=True)
         before = GG.snapshot(gr)
+        g_impl = GG.from_y0(gr)       # nodes and edges in the order the object holds them (a loose build brings nodes in through edges)
         pops = [Variable(f"pi{i + 1}") for i in range(len(doms))]
         so = {p: {GG.V(v) for v in d["W"]} for p, d in zip(pops, doms)}
         si = {p: {GG.V(v) for v in d["Z"]} for p, d in zip(pops, doms)}
@@ -193,7 +194,7 @@ class C05(PropBase):
                 if violation:
                     key = "C05/wrong-estimand"
         dom_c = "[" + "; ".join(f"({201 + i}, {c_list([OFF + v for v in d['W']])}, {c_list([OFF + v for v in d['Z']])})" for i, d in enumerate(doms)) + "]"
-        term = (f"CTrso {c_graph_off(g)} {c_list([OFF + v for v in Y])} {c_list([OFF + v for v in X])} {dom_c} {c_table(tbl)} {code} "
+        term = (f"CTrso {c_graph_off(g_impl)} {c_list([OFF + v for v in Y])} {c_list([OFF + v for v in X])} {dom_c} {c_table(tbl)} {code} "
                 f"{GE.c_expr(est) if est is not None else 'EOne'}")
         uses_source = est is not None and "pi1" in str(est) or (est is not None and "pi2" in str(est))
         return {"out": str(est) if est is not None else code, "violation": violation,
